@@ -813,6 +813,26 @@ func (p *prog) filesMeta() *sx.Sexp {
 
 // evalCase wraps a program as a two-phase case: parse+dump with the real parser, then execute on
 // both sides.
+// e2eCase: the same program, but the model side starts from the source bytes: lexer model, parser
+// model, block-table model, evaluator model (stream "e2e").  The literal tables the parser model needs
+// are computed by the preparation step with the real conversion code (hook VerifLiteral).
+func e2eCase(p *prog, extraTags ...string) h.Case {
+	tags := append([]string{}, extraTags...)
+	for t := range p.tags {
+		tags = append(tags, t)
+	}
+	pp := p
+	return h.Case{
+		Stream: "e2e", Meta: p.filesMeta(), Tags: tags, NonTrivial: true,
+		Prep: sx.L(sx.A("src-store")),
+		Finish: func(store *sx.Sexp) *sx.Sexp {
+			return sx.L(sx.A("exec-src"), store, sx.S(pp.entry),
+				sx.L(sx.A("exts"), sx.S(""), sx.S(".jet"), sx.S(".html.jet"), sx.S(".jet.html")),
+				sx.A(pp.esc), pp.globals, pp.vars, pp.data, sx.I(400))
+		},
+	}
+}
+
 func evalCase(stream string, p *prog, extraTags ...string) h.Case {
 	tags := append([]string{}, extraTags...)
 	for t := range p.tags {
